@@ -287,6 +287,30 @@ trivial = empty input; distinct = distinct input contents; families: every lengt
                         if rng.chance(1, 4) {
                             msg.hdr.time = *rng.pick(&[86_400_000u32, u32::MAX, 1 << 31]);
                         }
+                        // moment blocks that declare a word size no documented product uses (fewer
+                        // bits than were written, so the frame stays intact), a zero / non-finite
+                        // scale or offset, or a zero range / interval: the block still decodes and
+                        // the conversion to the model is what has to stay total
+                        for b in msg.blocks.iter_mut() {
+                            if let enc::Block::Mom(m) = b {
+                                if rng.chance(1, 3) {
+                                    let smaller: Vec<u8> = [0u8, 1, 2, 3, 4, 5, 6, 7, 9, 12, 15].iter().copied().filter(|w| *w < m.word).collect();
+                                    if !smaller.is_empty() {
+                                        m.word = *rng.pick(&smaller);
+                                    }
+                                }
+                                if rng.chance(1, 4) {
+                                    m.scale = *rng.pick(&[0.0f32, -0.0, f32::NAN, f32::INFINITY, f32::NEG_INFINITY, f32::MIN_POSITIVE, 1.0e-45, f32::MAX]);
+                                }
+                                if rng.chance(1, 4) {
+                                    m.offset = *rng.pick(&[0.0f32, f32::NAN, f32::INFINITY, f32::NEG_INFINITY, f32::MAX, f32::MIN]);
+                                }
+                                if rng.chance(1, 4) {
+                                    m.range = *rng.pick(&[0u16, 1, 32_768, 65_535]);
+                                    m.interval = *rng.pick(&[0u16, 1, 32_768, 65_535]);
+                                }
+                            }
+                        }
                     }
                 }
                 (spec.build(), "valid-volume-undocumented-codes")
